@@ -217,6 +217,10 @@ func runC09(c *Ctx) {
 	checkEarlyWgAccounting(c)
 	checkEarlyWgOrdering(c)
 
+	// ---------------------------------------------------------------- R9
+	c.rule("R9", "a dialled connection changes hands between goroutines only by rendezvous (unbuffered channel), so it always has exactly one owner", 1)
+	checkConnHandOverRendezvous(c, fns)
+
 	// ---------------------------------------------------------------- R8
 	c.rule("R8", "a reservation stays counted until the query it admitted is over: no release before the exchange it covers", 2)
 	for _, im := range []impl{{"tdcOneTimeExchanger", T + "TraditionalDnsConn.reservedQuery"}, {"lazyDnsConnEarlyReservedExchanger", T + "lazyDnsConn.reservedQuery"}} {
